@@ -11,6 +11,7 @@ EXPLANATION = ('In DbInner::open the stored metadata is loaded and compared befo
                'every key (one per ColumnOptions field, same field on both sides) and equality compares every field; the three per-column file-name '
                'predicates are prefixes of the corresponding file-name formats and are applied with the function\'s own column argument; every public '
                'administration entry opens (locks, replays, cleans) the database before deleting or rewriting anything.')
+EXPLANATION += ' Added: administration calls keep the format version and the stored salt, validate new options first, bound the column count by ColId; the metadata writer never compares the version it is given; column numbers in file names are delimited.'
 ASSUMPTIONS = ['that other columns\' bytes are equal before/after follows from "untouched" (structural half); content is not compared', 'unwind edges ignored']
 TRUSTED = ['rustc MIR construction (nightly)', 'pdb-facts driver', 'rule engine /verif/rules', 'format-template decoder in rules/lib.py', 'anchor tables in props/C17.py']
 
